@@ -67,6 +67,7 @@ def canonVal (s : String) : String :=
   | ['t'] => "vt"
   | ['f'] => "vf"
   | 's' :: r => "vs" ++ String.ofList r
+  | 'r' :: r => "t" ++ String.ofList r          -- a reference: the expression's tokens, as the harness renders an unevaluated value
   | 'l' :: r =>
     let parts := ((String.ofList r).splitOn "+").filter (· ≠ "")
     "vl(" ++ ",".intercalate (parts.map fun p => "s" ++ p) ++ ")"
